@@ -493,3 +493,276 @@ Proof.
 Qed.
 
 Print Assumptions build_param.
+
+(* ---------------------------------------------------------------- the owned elements of a layout *)
+
+Ltac destr_inner :=
+  match goal with
+  | |- context [match ?x with _ => _ end] =>
+      lazymatch x with context [match _ with _ => _ end] => fail | _ => destruct x end
+  end.
+
+Definition tag_kids (f : tag -> option witem) (t : tag) : list wnode :=
+  match f t with Some (IChildren _ _ _ _ _ ns) => ns | _ => [] end.
+
+Lemma children_of_app : forall a b, children_of (a ++ b)%list = (children_of a ++ children_of b)%list.
+Proof. intros a b. unfold children_of. apply flat_map_app. Qed.
+
+Lemma children_items_tags : forall ws f l, children_of (items_of ws f l) = flat_map (tag_kids f) (tags_of l).
+Proof.
+  intros ws f l. induction l as [|s r IH]; [reflexivity|].
+  rewrite items_of_cons, children_of_app, IH. destruct s as [k v|t].
+  - reflexivity.
+  - change (tags_of (STag t :: r)) with (t :: tags_of r). cbn [flat_map]. f_equal.
+    unfold tag_kids. destruct (f t) as [[| | | |]|]; cbn [children_of flat_map app]; rewrite ?app_nil_r; reflexivity.
+Qed.
+
+Lemma nodup_tags_seen : forall l seen t, nodup_tags l seen = true -> In t seen -> has_tag t l = false.
+Proof.
+  induction l as [|s r IH]; intros seen t H Hin; [reflexivity|].
+  destruct s as [k v|x].
+  - cbn [nodup_tags] in H. unfold has_tag. cbn [existsb orb]. exact (IH seen t H Hin).
+  - cbn [nodup_tags] in H. apply andb_true_iff in H. destruct H as [H1 H2]. apply negb_true_iff in H1.
+    unfold has_tag. cbn [existsb]. fold (has_tag t r). rewrite (IH (x :: seen) t H2 (or_intror Hin)), orb_false_r.
+    destruct (tag_eqb x t) eqn:E; [|reflexivity].
+    apply tag_eqb_eq in E. subst x. exfalso.
+    assert (Ht : existsb (tag_eqb t) seen = true).
+    { apply existsb_exists. exists t. split; [exact Hin|]. apply tag_eqb_eq. reflexivity. }
+    rewrite Ht in H1. discriminate H1.
+Qed.
+
+Lemma kids_single : forall f t0, (forall t, t <> t0 -> tag_kids f t = []) ->
+  forall l seen, nodup_tags l seen = true ->
+  flat_map (tag_kids f) (tags_of l) = if has_tag t0 l then tag_kids f t0 else [].
+Proof.
+  intros f t0 Ho. induction l as [|s r IH]; intros seen H; [reflexivity|].
+  destruct s as [k v|x].
+  - cbn [nodup_tags] in H. change (tags_of (SNoise k v :: r)) with (tags_of r).
+    unfold has_tag. cbn [existsb orb]. fold (has_tag t0 r). exact (IH seen H).
+  - cbn [nodup_tags] in H. apply andb_true_iff in H. destruct H as [H1 H2].
+    change (tags_of (STag x :: r)) with (x :: tags_of r). cbn [flat_map].
+    unfold has_tag. cbn [existsb]. fold (has_tag t0 r). rewrite (IH (x :: seen) H2).
+    destruct (tag_eqb x t0) eqn:E.
+    + apply tag_eqb_eq in E. subst x. rewrite (nodup_tags_seen r (t0 :: seen) t0 H2 (or_introl eq_refl)).
+      cbn [orb]. apply app_nil_r.
+    + cbn [orb]. rewrite Ho; [reflexivity|]. intro Ex. subst x.
+      assert (Et : tag_eqb t0 t0 = true) by (apply tag_eqb_eq; reflexivity). rewrite Et in E. discriminate E.
+Qed.
+
+(* the entries of a layout come from its noise slots and from its tags *)
+Lemma entries_in : forall ws f l kv, In kv (entries (items_of ws f l)) ->
+  (exists k v, In (SNoise k v) l /\ fst kv = k) \/ (exists t, In kv (tag_entries f t)).
+Proof.
+  intros ws f l kv. induction l as [|s r IH]; intro H; [destruct H|].
+  rewrite items_of_cons, entries_app in H. apply in_app_or in H. destruct H as [H|H].
+  - destruct s as [k v|t].
+    + left. exists k, v. split; [left; reflexivity|].
+      change (entries [IField ws k v]) with [(k, PStr (unq v))] in H. destruct H as [H|[]]. subst kv. reflexivity.
+    + right. exists t. rewrite tag_item_entries in H. exact H.
+  - destruct (IH H) as [[k [v [Hin E]]]|Ht].
+    + left. exists k, v. split; [right; exact Hin|exact E].
+    + right. exact Ht.
+Qed.
+
+(* ---------------------------------------------------------------- operations *)
+
+Lemma op_entries : forall o t,
+  tag_entries (op_item o) t =
+  match t with
+  | TVis => match so_vis o with Some c => [("visibility", PStr (unq c))] | None => [] end
+  | TRet => match so_ret o with [] => [] | _ => [("returnType_0", PStr (path_text (so_ret o)))] end
+  | TTypeMod => opt_entry "typeModifier" (so_retmod o)
+  | TAbstract => if so_abstract o then [("abstract", PStr "T")] else []
+  | TQuery => if so_query o then [("query", PStr "T")] else []
+  | TScope => if so_static o then [("scope", PStr "65")] else []
+  | TDoc => opt_entry "documentation_plain" (so_doc o)
+  | _ => []
+  end.
+Proof.
+  intros o t. unfold tag_entries, op_item. destruct t; try reflexivity; try apply text_field_entries.
+  - destruct (so_vis o); reflexivity.
+  - destruct (so_ret o); reflexivity.
+  - destruct (so_abstract o); reflexivity.
+  - destruct (so_query o); reflexivity.
+  - destruct (so_static o); reflexivity.
+  - destruct (so_params o); reflexivity.
+Qed.
+
+Lemma op_simple : forall D o, op_ok D o = true -> forall t it, op_item o t = Some it -> item_simple it = true.
+Proof.
+  intros D o H t it Hi. unfold op_ok in H. split_andb.
+  destruct t; cbn [op_item] in Hi; try discriminate Hi;
+    try (eapply text_field_simple; exact Hi); try (eapply flag_field_simple; exact Hi); try (eapply ref_field_simple; exact Hi).
+  - destruct (so_vis o) as [c|]; [|discriminate Hi]. injection Hi as Hi. subst it.
+    match goal with H : code_ok (Some c) = true |- _ => cbn [code_ok] in H; split_andb end.
+    cbn [item_simple]. rewrite unq_plain by (apply negb_true_iff; assumption). assumption.
+  - destruct (so_static o); [|discriminate Hi]. injection Hi as Hi. subst it. reflexivity.
+  - destruct (so_params o); [discriminate Hi|]. injection Hi as Hi. subst it. reflexivity.
+Qed.
+
+Lemma children_of_items : forall ws o, layout_ok (op_item o) (so_layout o) = true ->
+  children_of (items_of ws (op_item o) (so_layout o)) = map tree_of_param (so_params o).
+Proof.
+  intros ws o H. destruct (layout_parts _ _ H) as [Hd [_ [_ [_ Hh]]]].
+  rewrite children_items_tags, (kids_single (op_item o) TChild) with (seen := []); [|clear|exact Hd].
+  - destruct (has_tag TChild (so_layout o)) eqn:E.
+    + unfold tag_kids, op_item. destruct (so_params o); reflexivity.
+    + destruct (so_params o) as [|p r] eqn:Ep; [reflexivity|].
+      assert (Hc : op_item o TChild = Some (IChildren (tabs 3) "Child" (list_open 4) (list_sep 4) (list_close 3) (map tree_of_param (p :: r)))).
+      { cbn [op_item]. rewrite Ep. reflexivity. }
+      rewrite (Hh _ _ Hc) in E. discriminate E.
+  - intros t Ht. unfold tag_kids, op_item, text_field, flag_field, ref_field.
+    destruct t; try (exfalso; apply Ht; reflexivity); try reflexivity; repeat destr_inner; reflexivity.
+Qed.
+
+Lemma op_entries_nochild : forall ws o kv, layout_ok (op_item o) (so_layout o) = true ->
+  In kv (entries (items_of ws (op_item o) (so_layout o))) -> contains "child" (fst kv) = false.
+Proof.
+  intros ws o kv H Hin. destruct (layout_parts _ _ H) as [_ [_ [_ [Hn _]]]].
+  apply entries_in in Hin. destruct Hin as [[k [v [Hs E]]]|[t Ht]].
+  - rewrite E. apply noise_key_nochild. exact (proj1 (Hn k v Hs)).
+  - rewrite op_entries in Ht. unfold opt_entry in Ht.
+    destruct t; try (destruct Ht; fail);
+      repeat match type of Ht with context [match ?x with _ => _ end] => destruct x end;
+      try (destruct Ht; fail); destruct Ht as [Ht|[]]; subst kv; reflexivity.
+Qed.
+
+(* the body of the parameter loop of ClassOperation *)
+Definition param_step (g : string -> option velem) (acc : list rparam) (kv : string * UmlBlob.pv) : option (list rparam) :=
+  if contains "child" (fst kv) then
+    if truthy (snd kv) then
+      t <- sidx "type" (snd kv) ;;
+      if String.eqb "parameter" (lower t) then p <- parse_param g (snd kv) ;; Some (acc ++ [p])%list else Some acc
+    else Some acc
+  else Some acc.
+
+Lemma child_key_contains : forall x, contains "child" ("child_" ++ x) = true.
+Proof. reflexivity. Qed.
+
+Lemma param_step_child : forall D g p n acc, g_names D g -> param_ok D p = true ->
+  param_step g acc ("child_" ++ dec n, node_pv (tree_of_param p)) = Some (acc ++ [rparam_of D p])%list.
+Proof.
+  intros D g p n acc Hg Hok. unfold param_step. cbn [fst snd].
+  rewrite child_key_contains, (build_param D g p Hg Hok).
+  unfold tree_of_param. rewrite node_explicit, node_type_str. reflexivity.
+Qed.
+
+Lemma params_numbered : forall D g ps n acc, g_names D g -> forallb (param_ok D) ps = true ->
+  foldM (param_step g) (numbered (map node_pv (map tree_of_param ps)) n) acc = Some (acc ++ map (rparam_of D) ps)%list.
+Proof.
+  intros D g ps. induction ps as [|p r IH]; intros n acc Hg H.
+  - cbn [map numbered foldM]. rewrite app_nil_r. reflexivity.
+  - cbn [forallb] in H. apply andb_true_iff in H. destruct H as [H1 H2].
+    cbn [map numbered foldM]. rewrite (param_step_child D g p n acc Hg H1). cbn [bind].
+    rewrite (IH _ _ Hg H2), <- app_assoc. reflexivity.
+Qed.
+
+Lemma vis_pkg : forall c, String.eqb (py_strip (lower (vis_of_code c))) "package" = String.eqb (vis_of_code c) "package".
+Proof.
+  intro c. unfold vis_of_code.
+  destruct (String.eqb c "71"); [reflexivity|]. destruct (String.eqb c "67"); [reflexivity|].
+  destruct (String.eqb c "66"); [reflexivity|]. destruct (String.eqb c "68"); reflexivity.
+Qed.
+
+Lemma visibility_code : forall c, visibility_str (PStr c) = vis_of_code c.
+Proof. reflexivity. Qed.
+
+Lemma build_op : goal_op.
+Proof.
+  intros D g o Hg Hok.
+  assert (Hok' := Hok). unfold op_ok in Hok'. split_andb.
+  match goal with H : layout_ok _ _ = true |- _ => rename H into Hl end.
+  match goal with H : forallb (param_ok D) _ = true |- _ => rename H into Hps end.
+  unfold tree_of_op. rewrite node_explicit.
+  rewrite (layout_body (tabs 3) (op_item o) (so_layout o) Hl (op_simple D o Hok)).
+  rewrite (children_of_items (tabs 3) o Hl).
+  assert (Hloop : foldM (param_step g)
+                    (entries (items_of (tabs 3) (op_item o) (so_layout o)) ++ numbered (map node_pv (map tree_of_param (so_params o))) 0)%list []
+                  = Some (map (rparam_of D) (so_params o))).
+  { rewrite foldM_app, foldM_skip.
+    - cbn [bind]. rewrite (params_numbered D g (so_params o) 0 [] Hg Hps). reflexivity.
+    - intros kv acc Hin. unfold param_step. rewrite (op_entries_nochild _ _ _ Hl Hin). reflexivity. }
+  remember (map node_pv (map tree_of_param (so_params o))) as vals eqn:Ev. clear Ev.
+  assert (L1 : lookup String.eqb "visibility" (entries (items_of (tabs 3) (op_item o) (so_layout o)) ++ numbered vals 0)%list
+               = match so_vis o with Some c => Some (PStr c) | None => None end).
+  { rewrite (body_lookup _ _ _ _ _ TVis Hl); [|in_reserved|reflexivity|other_tags op_entries].
+    rewrite op_entries. destruct (so_vis o) as [c|]; [|reflexivity].
+    match goal with H : code_ok (Some c) = true |- _ => cbn [code_ok] in H; split_andb end.
+    rewrite unq_plain by (apply negb_true_iff; assumption). reflexivity. }
+  assert (L2 : lookup String.eqb "returnType_0" (entries (items_of (tabs 3) (op_item o) (so_layout o)) ++ numbered vals 0)%list
+               = match so_ret o with [] => None | _ => Some (PStr (path_text (so_ret o))) end).
+  { rewrite (body_lookup _ _ _ _ _ TRet Hl); [|in_reserved|reflexivity|other_tags op_entries].
+    rewrite op_entries. destruct (so_ret o); reflexivity. }
+  assert (L3 : lookup String.eqb "typeModifier" (entries (items_of (tabs 3) (op_item o) (so_layout o)) ++ numbered vals 0)%list
+               = if String.eqb (so_retmod o) "" then None else Some (PStr (so_retmod o))).
+  { rewrite (body_lookup _ _ _ _ _ TTypeMod Hl); [|in_reserved|reflexivity|other_tags op_entries].
+    rewrite op_entries. unfold opt_entry. destruct (String.eqb (so_retmod o) ""); reflexivity. }
+  assert (L4 : lookup String.eqb "documentation_plain" (entries (items_of (tabs 3) (op_item o) (so_layout o)) ++ numbered vals 0)%list
+               = if String.eqb (so_doc o) "" then None else Some (PStr (so_doc o))).
+  { rewrite (body_lookup _ _ _ _ _ TDoc Hl); [|in_reserved|reflexivity|other_tags op_entries].
+    rewrite op_entries. unfold opt_entry. destruct (String.eqb (so_doc o) ""); reflexivity. }
+  assert (L5 : lookup String.eqb "scope" (entries (items_of (tabs 3) (op_item o) (so_layout o)) ++ numbered vals 0)%list
+               = if so_static o then Some (PStr "65") else None).
+  { rewrite (body_lookup _ _ _ _ _ TScope Hl); [|in_reserved|reflexivity|other_tags op_entries].
+    rewrite op_entries. destruct (so_static o); reflexivity. }
+  assert (L6 : lookup String.eqb "abstract" (entries (items_of (tabs 3) (op_item o) (so_layout o)) ++ numbered vals 0)%list
+               = if so_abstract o then Some (PStr "T") else None).
+  { rewrite (body_lookup _ _ _ _ _ TAbstract Hl); [|in_reserved|reflexivity|other_tags op_entries].
+    rewrite op_entries. destruct (so_abstract o); reflexivity. }
+  assert (L7 : lookup String.eqb "query" (entries (items_of (tabs 3) (op_item o) (so_layout o)) ++ numbered vals 0)%list
+               = if so_query o then Some (PStr "T") else None).
+  { rewrite (body_lookup _ _ _ _ _ TQuery Hl); [|in_reserved|reflexivity|other_tags op_entries].
+    rewrite op_entries. destruct (so_query o); reflexivity. }
+  remember (entries (items_of (tabs 3) (op_item o) (so_layout o)) ++ numbered vals 0)%list as dict eqn:Ed. clear Ed.
+  unfold param_step in Hloop.
+  unfold parse_operation. rewrite node_name_str. cbn [bind]. rewrite node_child0. cbn [bind].
+  rewrite !has_dict, !idx_dict, !sidx_dict, !opt_field_dict.
+  rewrite L1, L2, L3, L4, L5, L6, L7.
+  cbn [items].
+  assert (Hvis : (if match match so_vis o with Some c => Some (PStr c) | None => None end with Some _ => true | None => false end
+                  then x <- match so_vis o with Some c => Some (PStr c) | None => None end ;; Some (visibility_str x)
+                  else Some "public")
+                 = Some match so_vis o with Some c => vis_of_code c | None => "public" end).
+  { destruct (so_vis o); reflexivity. }
+  rewrite Hvis. cbn [bind].
+  assert (Hret : (if match match so_ret o with [] => None | _ => Some (PStr (path_text (so_ret o))) end with Some _ => true | None => false end
+                  then t <- (x <- match so_ret o with [] => None | _ => Some (PStr (path_text (so_ret o))) end ;; as_str x) ;;
+                       n <- nested_type_names g t ;; Some (clean_modifiers n)
+                  else Some "void")
+                 = Some match so_ret o with [] => "void" | _ => type_name D (so_ret o) end).
+  { destruct (so_ret o) as [|i r] eqn:Er; [reflexivity|].
+    cbn [bind as_str]. apply typed_path; [exact Hg|assumption|discriminate]. }
+  rewrite Hret. cbn [bind]. rewrite Hloop. cbn [bind].
+  unfold rop_of.
+  assert (Hpkg : String.eqb (py_strip (lower match so_vis o with Some c => vis_of_code c | None => "public" end)) "package"
+                 = String.eqb match so_vis o with Some c => vis_of_code c | None => "public" end "package").
+  { destruct (so_vis o); [apply vis_pkg|reflexivity]. }
+  rewrite Hpkg. cbn zeta.
+  destruct (so_ret o); destruct (String.eqb (so_retmod o) "") eqn:E1; destruct (String.eqb (so_doc o) "") eqn:E2;
+    try (apply String.eqb_eq in E1; rewrite E1); try (apply String.eqb_eq in E2; rewrite E2);
+    destruct (so_static o); destruct (so_abstract o); destruct (so_query o); reflexivity.
+Qed.
+
+Print Assumptions build_op.
+
+(* the statements other files rely on *)
+Goal True.
+  pose proof (nested_names : forall S g ids, g_names S g -> path_ok S ids = true -> ids <> [] ->
+    nested_type_names g (path_text ids) = Some (type_name S ids)).
+  pose proof (typed_path : forall S g ids, g_names S g -> tpath_ok S ids = true -> ids <> [] ->
+    (n <- nested_type_names g (path_text ids) ;; Some (clean_modifiers n)) = Some (type_name S ids)).
+  pose proof (build_param : goal_param).
+  pose proof (build_op : goal_op).
+  pose proof (unq_q : forall v, unq (q v) = v).
+  pose proof (@foldM_app : forall {A S0} (f : S0 -> A -> option S0) l1 l2 s,
+    foldM f (l1 ++ l2)%list s = (s' <- foldM f l1 s ;; foldM f l2 s')).
+  pose proof (@foldM_skip : forall {A S0} (f : S0 -> A -> option S0) l s,
+    (forall x s', In x l -> f s' x = Some s') -> foldM f l s = Some s).
+  pose proof (noise_key_neq : forall k r, noise_key k = true -> In r reserved_keys -> k <> r).
+  pose proof (noise_key_part : forall k p, noise_key k = true -> In p reserved_parts -> contains p (lower k) = false).
+  pose proof (layout_body : forall ws f l, layout_ok f l = true -> (forall t it, f t = Some it -> item_simple it = true) ->
+    body_pv (items_of ws f l) = PDict (entries (items_of ws f l) ++ numbered (map node_pv (children_of (items_of ws f l))) 0)%list).
+  pose proof (children_of_items : forall ws o, layout_ok (op_item o) (so_layout o) = true ->
+    children_of (items_of ws (op_item o) (so_layout o)) = map tree_of_param (so_params o)).
+  exact I.
+Qed.
